@@ -472,7 +472,7 @@ def nt_omitted(case):
 
 
 SUBCHECKS = [
-    SubCheck("index_model", check_index_model, _mat_case, nt_mat, quick=12000, thorough=400000),
+    SubCheck("index_model", check_index_model, _mat_case, nt_mat, quick=12000, thorough=400000, fuzz=20000),
     # larger systems than the dense sweep above (up to 12 subsystems at drawn positions, local dimension up to 7, totals up to 512): the
     # property is not bounded in size, so a slip that needs many factors or a large local dimension must be reachable
     SubCheck("index_model_large", check_index_model, lambda: _mat_case(nmax=12, budget=512, hi=7, shuffle=True), nt_mat, quick=900, thorough=18000),
